@@ -304,8 +304,14 @@ func run(c *vh.Ctx) {
 	}
 	// record-level experiments on forged connections, every suite of the table incl. the weak CBC suites
 	// (EnableWeakCiphers is process-global: last, after every real handshake of this run)
+	for _, cb := range combos() {
+		if cb.version == tls.VersionTLS13 || cb.suite == tls.TLS_ECDHE_ECDSA_WITH_AES_128_GCM_SHA256 || cb.suite == tls.TLS_ECDHE_RSA_WITH_AES_128_CBC_SHA && cb.version == tls.VersionTLS12 {
+			liveSegmentation(c, cb, certs)
+		}
+	}
 	tls.EnableWeakCiphers()
 	forgedSweeps(c)
+	forgedSegmentation(c)
 	emptyRecordStreams(c)
 }
 
